@@ -104,11 +104,11 @@ Definition monitor_case (c : case) : bool :=
   let '(st, tr, r, av) := snd c in
   match st with
   | RFinished =>
-      protocol_ok tr && one_termination tr && death_ok tr && killer_ok_from [] None tr &&
+      protocol_ok tr && one_termination tr && death_ok tr && killer_ok_from [] None tr && decision_ok (fst c) tr &&
       result_ok (nchars_of (fst c)) (Z.of_nat (length (c_units (fst c)))) tr r av
   | _ => true
   end.
 
 Definition monitor_detail (c : case) :=
   let '(st, tr, r, av) := snd c in
-  (protocol_ok tr, one_termination tr, death_ok tr, killer_ok_from [] None tr, result_ok (nchars_of (fst c)) (Z.of_nat (length (c_units (fst c)))) tr r av).
+  (protocol_ok tr, one_termination tr, death_ok tr, killer_ok_from [] None tr, decision_ok (fst c) tr, result_ok (nchars_of (fst c)) (Z.of_nat (length (c_units (fst c)))) tr r av).
